@@ -164,10 +164,13 @@ func runCheck(eng *Engine, start time.Time) int {
 				// case split on at most three append outcomes occurring in this VC, then instantiate each case
 				var splits []*Term
 				if len(u.Splits) > 0 {
-					occ := termSet(append(append([]*Term{}, as...), goal))
+					occ := termSet([]*Term{goal})
 					for _, sp := range u.Splits {
 						rs := resolveDefs(sp)
-						if occ[rs] && len(splits) < 3 && !hasBound(rs) {
+						for rs.Op == "not" && len(rs.Args) == 1 {
+							rs = rs.Args[0]
+						}
+						if occ[rs] && len(splits) < 5 && !hasBound(rs) {
 							dup := false
 							for _, x := range splits {
 								if x == rs {
